@@ -98,7 +98,12 @@ class Pseudo2NetCDF:
                   if ((k not in self.ignore_variable_properties and
                        self.ignore_variable_re.match(k) is None) or
                       k in self.special_properties)]:
-            value = getattr(pvar, a)
+            # getncattr: getattr would return netCDF4's own python attribute
+            # for names such as scale or mask when the source is a disk file
+            if hasattr(pvar, 'getncattr'):
+                value = pvar.getncattr(a)
+            else:
+                value = getattr(pvar, a)
             if isinstance(nvar, NetCDFVariable) and a == '_FillValue':
                 continue
             if not isinstance(value, MethodType):
